@@ -305,6 +305,16 @@ func c15Expansion(r *mon.Run, lg *c15logger) {
 				map[string]any{"a": dumpInt(a), "b": dumpInt(b), "index": index, "bitlen": bl, "got": dumpInt(got), "reference": dumpInt(want)})
 			continue
 		}
+		// the caller owns what it gets: it reduces the number in place (as the key-proof loops do) and asks again
+		if i%3 == 0 {
+			got.Mod(got, bi(1000003)).Add(got, bi(int64(i)))
+			again := verifhooks.GetHashNumber(a, b, index, bl)
+			if again == nil || again.Cmp(want) != 0 {
+				r.Violation("C15/gethashnumber-differs-from-reference/after-caller-modified-result", fmt.Sprintf("GetHashNumber(a,b,%d,%d) differs from the reference when it is called again after the caller modified the first result in place", index, bl),
+					map[string]any{"a": dumpInt(a), "b": dumpInt(b), "index": index, "bitlen": bl, "got": dumpInt(again), "reference": dumpInt(want)})
+			}
+			got = cp(want)
+		}
 		if lg != nil && i%4 == 0 {
 			rec := map[string]any{"fn": "GetHashNumber", "a": nil, "b": nil, "index": index, "bitlen": bl, "out": got.String()}
 			if a != nil {
